@@ -69,6 +69,33 @@ def random_lp(rng, m=None, n=None, kind=None, name="r"):
     return lp
 
 
+def boxed_ranged(rng, name="bx"):
+    """every column boxed, most rows ranged, costs of both signs: feasible by construction (rows contain A x0 for a point x0 of
+    the box); the dual simplex starts with columns at upper bounds and its long-step ratio test flips boxed columns and ranged
+    rows' logicals between their bounds in both directions"""
+    m, n = rng.randint(2, 6), rng.randint(3, 8)
+    bnds = [rng.choice([(0, 1), (0, 4), (-2, 3), (1, 6), (-5, -1), (0, 10)]) for _ in range(n)]
+    x0 = [F(rng.randint(l, u)) for l, u in bnds]
+    cols = [(F(rng.choice([-7, -5, -3, -2, -1, 1, 2, 3, 4, 6])), F(l), F(u)) for l, u in bnds]
+    rows = []
+    for i in range(m):
+        ent = [(j, F(rng.choice([-3, -2, -1, 1, 2, 3, 5]))) for j in range(n) if rng.random() < 0.7] or [(i % n, F(1))]
+        a = sum(v * x0[j] for j, v in ent)
+        s = rng.choice("RRRLGE")
+        if s == "R":
+            lo_, w = a - rng.randint(0, 6), F(rng.randint(1, 9))
+            rows.append(("R", lo_, w if a <= lo_ + w else a - lo_ + rng.randint(0, 2), ent))
+        elif s == "L":
+            rows.append(("L", a + rng.randint(0, 4), F(0), ent))
+        elif s == "G":
+            rows.append(("G", a - rng.randint(0, 4), F(0), ent))
+        else:
+            rows.append(("E", a, F(0), ent))
+    lp = mk(name, rng.random() < 0.5, cols, rows)
+    lp["numbers"] = "small"
+    return lp
+
+
 def planted_lp(rng, m=None, n=None, kind=None, name="pl"):
     """LP built around a primal point x*; rows made tight or slack w.r.t. x*, so it is feasible;
     objective built from a dual vector so the optimum is finite."""
